@@ -34,3 +34,34 @@ Definition rxn_mismatches (cases : list rxn_case) : list nat :=
 Definition ia_case := (fundef * list N * result ml)%type.
 Definition ia_mismatches (cases : list ia_case) : list nat :=
   filter_idx (fun c => match c with (fd, args, exp) => negb (res_eqb ml_eqb (export_initial_assignment gen_facts fd args) exp) end) cases.
+
+(** reference ids (species, index) of the computed coefficients of a whole document, in document order: the ids of the
+    species references sbml.write created and the variables of the assignment rules it wrote for them *)
+Definition refs_case := (list reaction * list (N * N))%type.
+Definition refs_mismatches (cases : list refs_case) : list nat :=
+  filter_idx (fun c => match c with (rs, exp) => negb (list_eqb key_eqb (map fst (doc_keyed gen_facts rs)) exp) end) cases.
+
+(** sessions of sbml.write / sbml.read: documents are numbered (the number is read off the model that came back), stems
+    are numbered, [mods] is valid_filename on the stems that occur, [sizes] the size of the module generated for each
+    document, every read carries the second in which the generated file was written; [bc] = byte-code caching on *)
+From SbmlExp Require Import SbmlSession.
+Definition tabN (l : list (N * N)) (x : N) : N := match assoc_by N.eqb x l with Some v => v | None => x end.
+Definition sess_case := (bool * list (N * N) * list (N * N) * list (op N) * list (option N))%type.
+Definition sess_mismatches (cases : list sess_case) : list nat :=
+  filter_idx (fun c => match c with (bc, mods, sizes, ops, exp) =>
+    negb (list_eqb (opt_eqb N.eqb)
+            (run N N N (fun d => d) (fun s => s) (tabN sizes) (tabN mods) gen_import_facts bc ops (mkState [] [] [])) exp) end) cases.
+
+(** identifiers of a written document: (which reference, prefix of the component's kind, name, what the document contains) *)
+Inductive refkind := RMath | RIaSymbol | RSrefId | RRuleVariable | RDeclared.
+Definition nameref_case := (refkind * string * string * result string)%type.
+Definition nameref_mismatches (cases : list nameref_case) : list nat :=
+  filter_idx (fun c => match c with (k, prefix, s, exp) =>
+    negb (res_string_eqb
+            (match k with
+             | RMath => math_ref (f_math_names gen_facts) prefix s
+             | RIaSymbol => ia_symbol (f_math_names gen_facts) prefix s
+             | RSrefId => sref_id (f_math_names gen_facts) s
+             | RRuleVariable => rule_variable s
+             | RDeclared => convert_id prefix s
+             end) exp) end) cases.
